@@ -75,20 +75,23 @@ class Model:
 
     # ---------------------------------------------------------------- ranges
     def orbitals(self, idx) -> tuple:
+        """orbital range of an index.  Each space has a universe of four orbitals; an index
+        without spin label ranges over the first n of them (n = n_occ / n_virt), an alpha
+        index over the first two, a beta index over the last two (alpha and beta are
+        disjoint, as the library assumes; every labelled index still has two values, so
+        that index wirings remain distinguishable)."""
         space, spin = _space_spin(idx)
-        occ = list(range(self.n_occ))
-        virt = list(range(self.n_occ, self.n_occ + self.n_virt))
 
-        def part(lst):
+        def part(base, n):
+            uni = list(range(base, base + 4))
             if not spin:
-                return lst
-            h = (len(lst) + 1) // 2
-            return lst[:h] if spin == "a" else lst[h:]
+                return uni[:n]
+            return uni[:2] if spin == "a" else uni[2:]
         if space == "occ":
-            return tuple(part(occ))
+            return tuple(part(0, self.n_occ))
         if space == "virt":
-            return tuple(part(virt))
-        return tuple(part(occ) + part(virt))
+            return tuple(part(4, self.n_virt))
+        return tuple(part(0, self.n_occ) + part(4, self.n_virt))
 
     # ---------------------------------------------------------------- atoms
     def _num(self, x) -> int:
